@@ -210,6 +210,14 @@ def _fit_transform(ctx, N):
 
 
 RESET_CASES = []
+BETWEEN = {
+    "SparseKDE": [("score_samples", lambda: (arr("Qb", "Qn", "F"),))],
+    "PCovR": [("transform", lambda: (arr("Xb", "V", "M1"),))],
+    "KernelPCovR": [("transform", lambda: (arr("Xb", "V", "M1"),))],
+    "StandardFlexibleScaler": [("transform", lambda: (arr("Xb", "V", "M1"),))],
+    "KernelNormalizer": [("transform", lambda: (arr("Kb", "V", "N1"),))],
+    "Ridge2FoldCV": [("predict", lambda: (arr("Xb", "V", "M1"),))],
+}
 
 
 def _reset(ctx, N):
@@ -245,6 +253,12 @@ def _reset(ctx, N):
         s1 = State()
         o1 = ctx.construct(I1, s1, cls, **ctor)
         ctx.call_method(I1, s1, o1, "fit", *A[0], **A[1])
+        # readers called between the two fits may fill lazily computed caches
+        for meth, mk in BETWEEN.get(cls.rsplit(".", 1)[1], ()):
+            try:
+                ctx.call_method(I1, s1, o1, meth, *mk())
+            except Exception:
+                pass
         ctx.call_method(I1, s1, o1, "fit", *B[0], **B[1])
         I2 = ctx.interp(order=order, assume=protocols.assume_default, **cfg)
         s2 = State()
